@@ -664,7 +664,9 @@ class IteratorQueue(IterableQueue[_ValueT]):
           ) from e
         except Exception as e:  # pylint: disable=broad-exception-caught
           exhausted = is_stop_iteration(e)
-          if (exhausted and result) or (not exhausted and self.ignore_error):
+          # Elements dequeued before the end or the failure are still returned,
+          # the following call raises again.
+          if result or (not exhausted and self.ignore_error):
             break
           raise e
     with self._enqueue_lock:
